@@ -188,7 +188,7 @@ func (n *hNode) path() string {
 }
 
 var hDescs = []string{"", "one line", "50% of %s done, 100%d", "%", "first line\nsecond line", "with (parens) and $VAR", "a\n\nb", "  padded  ", "x\n  indented cont", "ends with colon:", "Options are nice"}
-var hEnvs = []string{"", "E1", "E1 E2", "  E1   E2  E3 ", " ", "E_SET", "E1,E2", "E1\tE2", "e_low http_proxy", "Mixed_Case"} // names are separated by white space only
+var hEnvs = []string{"", "E1", "E1 E2", "  E1   E2  E3 ", " ", "E_SET", "E1,E2", "E1\tE2", "e_low http_proxy", "Mixed_Case", "$TOKEN APP_TOKEN", "A_RATHER_LONG_ENVIRONMENT_VARIABLE_NAME_OF_MORE_THAN_FORTY_CHARACTERS"} // names are separated by white space only
 
 // genHelpNode draws declarations for one command and records the rows its help must show
 func genHelpNode(r *rand.Rand, name string, depth int, parent *hNode, version bool) *hNode {
@@ -246,7 +246,7 @@ func genHelpNode(r *rand.Rand, name string, depth int, parent *hNode, version bo
 		switch typ {
 		case 7, 8:
 			// user-supplied value type: the default shown is its String(), unless it says IsDefault()
-			txt := []string{"", "cv-1", "two words", "[]", "false", "0"}[r.Intn(6)] // shown as it is whenever the type does not say IsDefault
+			txt := []string{"", "cv-1", "two words", "[]", "false", "0", "the text of a user-defined value, longer than forty characters"}[r.Intn(7)] // shown as it is whenever the type does not say IsDefault
 			isDef := typ == 8 && r.Intn(2) == 0
 			var val flag.Value = &c17Plain{txt}
 			if typ == 8 {
@@ -270,7 +270,7 @@ func genHelpNode(r *rand.Rand, name string, depth int, parent *hNode, version bo
 				def = "true"
 			}
 		case 1:
-			v := []string{"", "str", "with space", "q\"uote", "50%", "%d %s", "a\\b", " ", "\t", "Kraków", "日本語"}[r.Intn(11)] // shown %q-quoted, verbatim otherwise
+			v := []string{"", "str", "with space", "q\"uote", "50%", "%d %s", "a\\b", " ", "\t", "Kraków", "日本語", "a default of more than forty characters, which is shown to its very end"}[r.Intn(12)] // shown %q-quoted, verbatim otherwise
 			decls = append(decls, func(c *cli.Cmd) { c.String(cli.StringOpt{Name: name, Desc: d, EnvVar: e, Value: v, HideValue: hide}) })
 			if v != "" {
 				def = fmt.Sprintf("%q", v)
@@ -284,7 +284,7 @@ func genHelpNode(r *rand.Rand, name string, depth int, parent *hNode, version bo
 			decls = append(decls, func(c *cli.Cmd) { c.Float64(cli.Float64Opt{Name: name, Desc: d, EnvVar: e, Value: v, HideValue: hide}) })
 			def = fmt.Sprintf("%v", v)
 		case 4:
-			v := [][]string{nil, {}, {"a"}, {"a", "b c"}, {"100%", "%v"}, {"C:\\tmp", "say \"hi\"", "tab\there"}, {" "}}[r.Intn(7)]
+			v := [][]string{nil, {}, {"a"}, {"a", "b c"}, {"100%", "%v"}, {"C:\\tmp", "say \"hi\"", "tab\there"}, {" "}, {"first-element", "second-element", "third-element", "fourth-element"}}[r.Intn(8)]
 			if v == nil && r.Intn(2) == 0 {
 				// the *Ptr entry point with a destination that holds something else: no default was declared, none is shown
 				decls = append(decls, func(c *cli.Cmd) {
@@ -302,7 +302,7 @@ func genHelpNode(r *rand.Rand, name string, depth int, parent *hNode, version bo
 				def = "[" + strings.Join(q, ", ") + "]"
 			}
 		case 5:
-			v := [][]int{nil, {1}, {1, 2}}[r.Intn(3)]
+			v := [][]int{nil, {1}, {1, 2}, {1000000, 2000000, 3000000, 4000000, 5000000, 6000000, 7000000}}[r.Intn(4)]
 			decls = append(decls, func(c *cli.Cmd) { c.Ints(cli.IntsOpt{Name: name, Desc: d, EnvVar: e, Value: v, HideValue: hide}) })
 			if len(v) > 0 {
 				var q []string
@@ -442,7 +442,7 @@ func init() {
 		Title:     "Help text lists exactly what was declared",
 		Technique: "runtime monitor: the help the real library renders (long help via --help, short help via a usage error) is parsed back and compared with a model of the declarations",
 		Rule: "random command trees (depth<=2) with random declarations per command: option name lists (only long, only short, several of each), descriptions (empty, one line, multi-line, with parentheses and $, padded), " +
-			"environment lists with irregular blanks (one variable actually set, to show that the default displayed is the declared one), defaults of every built-in type incl. the 'empty' ones (false, \"\", empty slices) and 0 / 0.0, HideValue, " +
+			"environment lists with irregular blanks (one variable actually set, to show that the default displayed is the declared one; names in any letter case, one written with a leading $, one longer than forty characters), defaults of every built-in type (short ones and ones of more than forty characters, shown to their end) incl. the 'empty' ones (false, \"\", empty slices) and 0 / 0.0, HideValue, " +
 			"hidden commands, LongDesc, aliases, a version flag; a random command of the tree is addressed and its help requested with --help (long), provoked by a usage error (short), or printed by the command's own Action through PrintHelp / PrintLongHelp. " +
 			"Oracle (DESIGN 3.8): usage line = 'Usage: <full path> <trimmed spec, synthesised when none>' + ' COMMAND [arg...]' iff it has subcommands; description (LongDesc for --help when set); sections in the order Arguments, Options, Commands; " +
 			"one row per declared argument / option (first one-letter and first longer name) / non-hidden subcommand (all aliases), in declaration order, each with description, (env $A, $B) iff a list was given, (default V) iff not hidden and V non-empty; nothing else in the sections. " +
